@@ -16,6 +16,10 @@ pub trait Nd {
     fn assume(&mut self, c: bool);
     /// Records that a witness point was reached (native only; Kani uses `kani::cover!`).
     fn witness(&mut self, _name: &'static str) {}
+    /// Native only: remembers the concrete pre-state, observer and event of an inductive step so
+    /// that a conformance failure can be attributed to a property (see attrib.rs).
+    #[cfg(not(kani))]
+    fn capture(&mut self, _ctx: crate::attrib::Ctx) {}
 
     fn i8(&mut self) -> i8 {
         self.u8() as i8
@@ -98,6 +102,8 @@ pub struct ReplayNd {
     pub values: Vec<Vec<u8>>,
     pub pos: usize,
     pub witnesses: Vec<&'static str>,
+    #[cfg(not(kani))]
+    pub ctx: Option<crate::attrib::Ctx>,
 }
 
 impl ReplayNd {
@@ -106,6 +112,8 @@ impl ReplayNd {
             values,
             pos: 0,
             witnesses: Vec::new(),
+            #[cfg(not(kani))]
+            ctx: None,
         }
     }
     fn next(&mut self, n: usize) -> u128 {
@@ -154,6 +162,10 @@ impl Nd for ReplayNd {
     }
     fn witness(&mut self, name: &'static str) {
         self.witnesses.push(name);
+    }
+    #[cfg(not(kani))]
+    fn capture(&mut self, ctx: crate::attrib::Ctx) {
+        self.ctx = Some(ctx);
     }
 }
 
